@@ -2,13 +2,10 @@
 operation (correspondence) + gating of the direct oracle's verdicts.
 
 A direct-oracle failure at operation j of a case is reported
-  * under its own key when that key is one of the enumerated genuine defects of the
-    unchanged tree (known_findings.d/<PID>.json) AND the transcribed model reproduces the
-    real behaviour of the whole case up to and including operation j;
-  * under the catch-all "<pid>-other-deviation-present-in-transcribed-model" when the key
-    is not enumerated but the model reproduces the behaviour step for step (a rarer
-    deviation that the pinned source really has) — never while any obligation is broken
-    and never for the checks listed in `never_catchall`;
+  * under its own key "<pid>-<check>:<signature>" when the transcribed model reproduces the
+    real behaviour of the whole case up to and including operation j; the keys of the genuine
+    defects of the unchanged tree are enumerated one by one, each with its replay, in
+    known_findings.d/<PID>.json — a key that is not listed there is a VIOLATION;
   * under "<key>@behaviour-differs-from-model" otherwise: the real code does something
     the transcription of the pinned source does not — always a VIOLATION.
 The oracle only looks at the prefix of a case the model speaks about (up to the first
@@ -21,9 +18,17 @@ def request(eoc, ops):
     return "sess run %d %s" % (1 if eoc else 0, ",".join(L.fmt_op(o) for o in ops) or "-")
 
 
-def evaluate(ctx, cases, label, prop, enumerated, never_catchall=("A",)):
-    pid = prop.upper()
-    catchall = "%s-other-deviation-present-in-transcribed-model" % prop
+def known_keys(pid):
+    import json
+    import os
+
+    fn = os.path.join(os.path.dirname(os.path.dirname(os.path.abspath(__file__))), "known_findings.d", pid.upper() + ".json")
+    if not os.path.exists(fn):
+        return set()
+    return {e["key"] for e in json.load(open(fn))["findings"] if e.get("status") == "known"}
+
+
+def evaluate(ctx, cases, label, prop, enumerated=None, never_catchall=()):
     model = ctx.driver([request(eoc, ops) for eoc, ops, _, _ in cases]) if ctx.driver_ok() else None
     corr_cases, impl_out, model_out = [], [], []
     for n, (eoc, ops, strs, fs) in enumerate(cases):
@@ -66,8 +71,6 @@ def evaluate(ctx, cases, label, prop, enumerated, never_catchall=("A",)):
             key = "%s-%s:%s" % (prop, f["check"], f["sig"])
             if diverge_at is not None and f["i"] >= diverge_at:
                 key += "@behaviour-differs-from-model"
-            elif key not in enumerated and f["check"] not in never_catchall and not ctx.broken:
-                key = catchall
             ctx.count("oracle:" + key)
             ctx.violation(key, dict(case, ops=case["ops"][: f["i"] + 1]), f["detail"])
         elif len(ops) >= 8:
@@ -120,4 +123,4 @@ def replay(ctx, obj, prop, oracle):
     got = "%s-%s:%s" % (prop, f["check"], f["sig"]) if f else None
     if "@" in obj["key"]:
         return f is not None and (differs is not None or got == want)
-    return f is not None and (got == want or want.endswith("-other-deviation-present-in-transcribed-model"))
+    return f is not None and got == want
